@@ -97,8 +97,8 @@ def form_variable(ch, u):
         # a declarator of the form `*name` after `T*` etc. is fine; references only plain
         value = None
         if init == 1:
-            d += " = 16UL + 0x2ull"
-            value = val("16UL", "+", "0x2ull")
+            d += " = 16UL + 0x2ull + 0xDE'AD'BE'EFu + 0b1'01 + 1'000'000"
+            value = val("16UL", "+", "0x2ull", "+", "0xDE'AD'BE'EFu", "+", "0b1'01", "+", "1'000'000")
         elif init == 2:
             d += "{1, 2}"
             value = val("{", "1", ",", "2", "}")
@@ -179,8 +179,23 @@ def form_function(ch, u):
 def form_method_impl(ch, u):
     from cxxheaderparser.types import Method, PQName, NameSpecifier, Type, FundamentalSpecifier
 
-    k = ch.pick(4)
+    k = ch.pick(5)
     void = Type(PQName([FundamentalSpecifier("void")]))
+    if k == 4:
+        # two template headers as written; the invented parameter of the abbreviated (`auto`) parameter belongs to the innermost one
+        from cxxheaderparser.types import (AutoSpecifier, Parameter, Reference, TemplateArgument, TemplateDecl, TemplateNonTypeParam, TemplateSpecialization,
+                                           TemplateTypeParam)
+
+        def named(n):
+            return Type(PQName([NameSpecifier(n)]))
+
+        name = PQName([NameSpecifier(f"Tb{u}", TemplateSpecialization([TemplateArgument(named("K"))])), NameSpecifier("Row", TemplateSpecialization([TemplateArgument(named("V"))])),
+                       NameSpecifier("put")])
+        auto_t = lambda: Type(PQName([AutoSpecifier()]))  # noqa
+        params = [Parameter(Reference(Type(PQName([NameSpecifier("K")]), const=True)), "key"), Parameter(auto_t(), "value")]
+        tmpl = [TemplateDecl([TemplateTypeParam("typename", "K")]), TemplateDecl([TemplateTypeParam("typename", "V"), TemplateNonTypeParam(type=auto_t(), param_idx=1)])]
+        return (f"template <typename K> template <typename V> void Tb{u}<K>::Row<V>::put(const K &key, auto value) {{ }}",
+                [("method_impls", Method(void, name, params, has_body=True, template=tmpl))], {})
     if k == 0:
         return f"void S{u}::m() const {{ }}", [("method_impls", Method(void, pq(f"S{u}", "m"), [], const=True, has_body=True))], {}
     if k == 1:
